@@ -48,8 +48,8 @@ def ref_dlogpdf(kind, par, t):
     else:
         d = -1 / mp.mpf(par[0])
         scale = abs(d)
-    num = mp.diff(lambda u: ref_logpdf(kind, par, u), t)
-    if abs(num - d) > mp.mpf(10) ** -15 * scale + mp.mpf(10) ** -25 / mp.mpf(par[-1]) ** 2:
+    num = mp.diff(lambda u: ref_logpdf(kind, par, u), t, h=mp.mpf(par[-1]) * mp.mpf("1e-12"))
+    if abs(num - d) > mp.mpf(10) ** -15 * scale + mp.mpf(10) ** -20 / mp.mpf(par[-1]):
         raise AssertionError(f"oracle self-check failed: analytic {d} vs numeric {num}")
     return d
 
@@ -73,7 +73,7 @@ def ref_bounds(kind, par):
 def grad_floor(kind, par, t):
     """rounding of (mean - theta) before the division by sigma**2: a few ulps at the scale of the operands"""
     if kind == "gauss":
-        return 4 * np.finfo(float).eps * (abs(par[0]) + abs(t)) / par[1] ** 2
+        return 4 * np.finfo(float).eps * (abs(par[0]) + abs(t)) / par[1] / par[1]
     return 0.0
 
 
@@ -153,6 +153,20 @@ def interleaved(comps):
 
 
 # ------------------------------------------------------------------ bodies
+def gradient_survives_caller(prior, th, g, label):
+    """a caller accumulates a total gradient in place in the array it was handed (g = prior.gradient(x); g += ...): the prior's next
+    answer is still its own gradient"""
+    with np.errstate(all="ignore"):
+        g = np.array(prior.gradient(th), dtype=float, copy=True)
+        mine = prior.gradient(th)
+        if isinstance(mine, np.ndarray) and mine.flags.writeable:
+            mine += 7.0
+        again = np.asarray(prior.gradient(th), dtype=float)
+    if not np.array_equal(again, g, equal_nan=True):   # (g: the caller-independent copy taken before)
+        raise Violation(f"{label}:gradient-buffer", f"after the caller added to the returned gradient array in place, gradient() at the same point returns "
+                                                   f"{again.tolist()} instead of {np.asarray(g).tolist()}")
+
+
 def check_joint_like(prior, comps, theta, where, n, label, ctx):
     owner = {}
     for c in comps:
@@ -190,6 +204,7 @@ def check_joint_like(prior, comps, theta, where, n, label, ctx):
             cg = np.asarray(prior.cost_gradient(th), dtype=float)
             if not np.array_equal(cg, -g):
                 raise Violation(f"{label}:cost-gradient", "cost_gradient is not the exact negative of gradient")
+            gradient_survives_caller(prior, th, g, label)
         with np.errstate(all="ignore"):
             c = float(prior.cost(th))
         if c != -val:
@@ -248,6 +263,7 @@ def body_single(case, ctx):
                 rg = mp.mpf(0) if c["kind"] == "uniform" else ref_dlogpdf(c["kind"], p, th[i])
                 if abs(float(mp.mpf(g[k]) - rg)) > 1e-11 * abs(float(rg)) + grad_floor(c["kind"], p, th[i]):
                     raise Violation(f"{label}:gradient", f"entry {k} is {g[k]!r}, reference {mp.nstr(rg, 17)}")
+            gradient_survives_caller(prior, th, g, label)
     for k, p in enumerate(c["pars"]):
         rb = ref_bounds(c["kind"], p)
         if not (same_bound(prior.bounds[k][0], rb[0]) and same_bound(prior.bounds[k][1], rb[1])):
@@ -265,6 +281,13 @@ def single_layouts(draw):
     c = lay["comps"][0]
     keep = draw(st.integers(1, len(c["idx"])))
     c["idx"], c["pars"] = c["idx"][:keep], c["pars"][:keep]
+    # "for all hyper-parameter values": also Gaussian widths whose squares / inverse squares leave the float range
+    if c["kind"] == "gauss" and draw(st.integers(0, 7)) == 0:
+        ex = draw(st.sampled_from([-170.0, -158.0, 158.0, 170.0]))
+        for k, i in enumerate(c["idx"]):
+            u = draw(st.floats(-40, 40))
+            c["pars"][k] = [0.0, 10.0 ** ex]
+            lay["theta"][i] = u * 10.0 ** ex
     return lay
 
 
@@ -535,16 +558,26 @@ def int_layouts(draw):
             else:
                 lo = draw(st.integers(-20, 20))
                 par = [lo, lo + draw(st.integers(1, 9))]
+                if draw(st.integers(0, 3)) == 0:
+                    # a wide interval (its width does not fit in an 8-bit type that holds both limits)
+                    par = [-draw(st.integers(60, 120)), draw(st.integers(60, 120))]
                 theta[i] = draw(st.integers(par[0], par[1]))
             pars.append(par)
         comps.append({"kind": kind, "idx": g, "pars": pars})
     return {"seed": draw(st.integers(0, 2**31)), "n": n, "comps": comps, "theta": theta,
-            "par_form": draw(st.sampled_from(["pyint", "int64", "int32"])), "theta_form": draw(st.sampled_from(["int64", "int32", "int64", "float64"])),
+            "par_form": draw(st.sampled_from(["pyint", "int64", "int32", "int8", "uint8", "int16", "float32", "float16"])),
+            "theta_form": draw(st.sampled_from(["int64", "int32", "int64", "float64", "int8"])),
             "joint": draw(st.booleans())}
 
 
 def make_form(kind, pars, idx, form):
-    conv = (lambda v: [int(x) for x in v]) if form == "pyint" else ((lambda v: np.array(v, dtype=form)) if form != "float" else (lambda v: [float(x) for x in v]))
+    def as_array(v):
+        a = np.array(v, dtype=float)
+        with np.errstate(all="ignore"):
+            b = a.astype(form)
+        return b if np.array_equal(b.astype(float), a) else a.astype(np.int64)      # (a type that cannot hold the numbers: int64)
+
+    conv = (lambda v: [int(x) for x in v]) if form == "pyint" else (as_array if form != "float" else (lambda v: [float(x) for x in v]))
     if kind == "gauss":
         return GaussianPrior(mean=conv([p[0] for p in pars]), sigma=conv([p[1] for p in pars]), variable_indices=list(idx))
     if kind == "exp":
